@@ -86,30 +86,6 @@ def storeRun (ops : List Store.Op) : Option Store.Store × Bool :=
   let (w, rs) := Store.run {} ops
   (w.cifs.getD 0 none, rs.all (fun r => r.rc == some 0))
 
-/-! ### the values of a trace -/
-
-mutual
-  /-- no number object anywhere in the value: the parser builds character values (numbers are recognised lazily, on demand, by
-      cif_value_get_number), unknown / not-applicable values, lists and tables -/
-  def numbFree : V → Bool
-    | .numb .. => false
-    | .lst vs => numbFreeList vs
-    | .tbl es => numbFreeEntries es
-    | _ => true
-  def numbFreeList : List V → Bool
-    | [] => true
-    | v :: vs => numbFree v && numbFreeList vs
-  def numbFreeEntries : List (Str × Str × V) → Bool
-    | [] => true
-    | (_, _, v) :: es => numbFree v && numbFreeEntries es
-end
-
-/-- the values a recorded call hands to the store -/
-def SOp.values : SOp → List V
-  | .setVal _ _ v => [v]
-  | .addPkt _ vals => vals
-  | _ => []
-
 /-! ### comparison (Bool), for executed instances -/
 
 def loopBeq (a b : Loop) : Bool := a.category == b.category && a.names == b.names && a.packets == b.packets
